@@ -74,29 +74,63 @@ class GzipDecompressor(SimpleGzipDecompressor):
 class DeflateDecompressor(SimpleGzipDecompressor):
     '''zlib decompressor with raw deflate detection.
 
-    This class doesn't do any special. It only tries regular zlib and then
-    tries raw deflate on the first decompress.
+    This class checks whether the stream starts with the 2 byte zlib header.
+    If it is not present, the stream is decoded as raw deflate. The input
+    is buffered until both bytes have arrived so the result does not depend
+    on how the stream is split up.
     '''
     def __init__(self):
         super().__init__()
         self.decompressobj = None
+        self.pending = b''
 
     def decompress(self, value):
         if not self.decompressobj:
-            try:
+            value = self.pending + value
+
+            if len(value) < 2:
+                self.pending = value
+                return b''
+
+            self.pending = b''
+
+            if is_zlib_header(value):
                 self.decompressobj = zlib.decompressobj()
-                return self.decompressobj.decompress(value)
-            except zlib.error:
+            else:
                 self.decompressobj = zlib.decompressobj(-zlib.MAX_WBITS)
-                return self.decompressobj.decompress(value)
 
         return self.decompressobj.decompress(value)
 
     def flush(self):
+        if not self.decompressobj and self.pending:
+            # Less than 2 bytes in total: this cannot be a zlib stream.
+            self.decompressobj = zlib.decompressobj(-zlib.MAX_WBITS)
+            value = self.pending
+            self.pending = b''
+
+            return self.decompressobj.decompress(value) + super().flush()
+
         if self.decompressobj:
             return super().flush()
         else:
             return b''
+
+
+def is_zlib_header(data):
+    '''Return whether the data starts with a zlib (RFC 1950) header.
+
+    The header is 2 bytes: compression method 8 (deflate) with a window of
+    at most 32K, a check value that makes the 16 bit number a multiple
+    of 31, and no preset dictionary.
+    '''
+    if len(data) < 2:
+        return False
+
+    cmf = data[0]
+    flg = data[1]
+
+    return (cmf & 0x0f) == 8 and (cmf >> 4) <= 7 \
+        and (cmf * 256 + flg) % 31 == 0 and not (flg & 0x20)
 
 
 def gzip_uncompress(data, truncated=False):
